@@ -136,13 +136,18 @@ func ruleC16a(c *Ctx) []*report.Result {
 	r := report.NewResult("C16.a", "Sprint/Sprintln/Sprintf/Fprint/Fprintln/Fprintf/HelperForErrorf run, on a single path, newPrinter, then exactly one doPrint/doPrintln/doPrintf with the caller's arguments unchanged, then Take*, then free; the public functions of the root package are pure forwards (one call, same arguments in order, results returned unchanged)", 20)
 	sp := c.P.SSAPkg("internal/rfmt")
 	want := map[string]string{"Sprint": "doPrint", "Fprint": "doPrint", "Sprintln": "doPrintln", "Fprintln": "doPrintln", "Sprintf": "doPrintf", "Fprintf": "doPrintf", "HelperForErrorf": "doPrintf"}
+	entryDo := map[*ssa.Function]string{} // entry point of rfmt -> the doPrint* it runs
 	for name, do := range want {
 		fn := sp.Func(name)
+		if fn == nil {
+			fn = c.internalTarget("internal/rfmt", name) // renamed: what the public function of that name calls
+		}
 		construct := "rfmt." + name
 		if fn == nil {
 			r.Fail(construct, "internal/rfmt/print.go", "entry point not found", nil, "")
 			continue
 		}
+		entryDo[fn] = do
 		pos := c.P.Pos(fn.Pos())
 		// unexported helpers of the printer are read in place
 		fl := flatten(fn, func(g *ssa.Function) bool {
@@ -219,7 +224,21 @@ func ruleC16a(c *Ctx) []*report.Result {
 			fwd++
 			r.Ok("redact." + fn.Name() + " forwards to " + target)
 			// the forward must go to the homonymous function
-			if must && !strings.HasSuffix(target, "."+fn.Name()) {
+			// ... or, the internal function having another name, to the entry
+			// point that runs the doPrint* this public name stands for
+			sameProtocol := false
+			if wantDo, known := want[fn.Name()]; known {
+				for _, b := range fn.Blocks {
+					for _, ins := range b.Instrs {
+						if ci, ok := ins.(*ssa.Call); ok {
+							if g := ci.Common().StaticCallee(); g != nil && entryDo[g] == wantDo {
+								sameProtocol = true
+							}
+						}
+					}
+				}
+			}
+			if must && !strings.HasSuffix(target, "."+fn.Name()) && !sameProtocol {
 				r.Fail("redact."+fn.Name()+" / forward target", c.P.Pos(fn.Pos()), "forwards to "+target+" instead of the function of the same name", nil, "")
 			}
 		} else if must {
